@@ -3133,17 +3133,49 @@ func (b *Bundle) Compile(log logger.Log, timer *helpers.Timer, mangleCache map[s
 	if !options.WriteToStdout {
 		// Make sure an output file never overwrites an input file
 		if !options.AllowOverwrite {
+			// Compare the paths both as written and with symbolic links in the
+			// directory part resolved, since the output directory may be (or be
+			// inside of) a symbolic link to a directory containing input files
+			realDirCache := make(map[string]string)
+			realPath := func(absPath string) string {
+				dir := b.fs.Dir(absPath)
+				realDir, ok := realDirCache[dir]
+				if !ok {
+					// Resolve the longest prefix of the directory that exists
+					realDir = dir
+					suffix := ""
+					for prefix := dir; ; {
+						if resolved, ok := b.fs.EvalSymlinks(prefix); ok {
+							realDir = b.fs.Join(resolved, suffix)
+							break
+						}
+						parent := b.fs.Dir(prefix)
+						if parent == prefix {
+							break
+						}
+						suffix = b.fs.Join(b.fs.Base(prefix), suffix)
+						prefix = parent
+					}
+					realDirCache[dir] = realDir
+				}
+				return b.fs.Join(realDir, b.fs.Base(absPath))
+			}
 			sourceAbsPaths := make(map[string]uint32)
 			for _, sourceIndex := range allReachableFiles {
 				keyPath := b.files[sourceIndex].inputFile.Source.KeyPath
 				if keyPath.Namespace == "file" {
 					absPathKey := canonicalFileSystemPathForWindows(keyPath.Text)
 					sourceAbsPaths[absPathKey] = sourceIndex
+					sourceAbsPaths[canonicalFileSystemPathForWindows(realPath(keyPath.Text))] = sourceIndex
 				}
 			}
 			for _, outputFile := range outputFiles {
 				absPathKey := canonicalFileSystemPathForWindows(outputFile.AbsPath)
-				if sourceIndex, ok := sourceAbsPaths[absPathKey]; ok {
+				sourceIndex, ok := sourceAbsPaths[absPathKey]
+				if !ok {
+					sourceIndex, ok = sourceAbsPaths[canonicalFileSystemPathForWindows(realPath(outputFile.AbsPath))]
+				}
+				if ok {
 					hint := ""
 					switch logger.API {
 					case logger.CLIAPI:
